@@ -82,8 +82,11 @@ NOT_ATTEMPTED = {
     "WKS": "f-string field '' of symbolic SInt"
 }
 
+# minutes of solver time (many validation branches): verified in the thorough tier only
+HEAVY = {"ZONEMD", "DS", "CDS", "DLV", "HINFO", "ISDN"}
+
 for tname, cq, rdclass, rdtype in _discover():
     if tname in NOT_ATTEMPTED:
         continue
-    REG.roundtrip(tname, cls=cq, rdclass=rdclass, rdtype=rdtype,
-                  note=f"{tname}: decode(w) = x  =>  encode(x) succeeds and decode(encode(x)) = x field by field, consuming exactly")
+    REG.roundtrip(tname, cls=cq, rdclass=rdclass, rdtype=rdtype, heavy=tname in HEAVY,
+                  note=f"{tname}: decode(w) = x  =>  encode(x) succeeds and decode(encode(x)) = x field by field, consuming exactly; and every value the constructor accepts survives encode-then-decode")
